@@ -21,7 +21,7 @@ RULE = ('cases are one key shape (primary + 0-3 subkeys, 1-2 identities with the
         'model in which the primary lacked the capability and a subkey had it, or nobody had it, or a re-binding had changed a '
         'subkey\'s capability; distinct = distinct (capability layout, operation, form, enforcement) tuples')
 TIERS = {'quick': {'runs': 4000, 'budget_s': 80}, 'thorough': {'runs': 200000, 'budget_s': 1500}}
-PROBES = ('foreign_binding_added', 'locked_key_with_unprotected_subkey', 'last_identity_removed', 'unhashed_key_flags_added', 'recertify_without_issuer_fingerprint', 'subkey_used', 'primary_used', 'nobody_allowed_enforced', 'nobody_allowed_not_enforced', 'rebinding_changed_capability',
+PROBES = ('second_recipient_same_algorithm_first', 'foreign_binding_added', 'locked_key_with_unprotected_subkey', 'last_identity_removed', 'unhashed_key_flags_added', 'recertify_without_issuer_fingerprint', 'subkey_used', 'primary_used', 'nobody_allowed_enforced', 'nobody_allowed_not_enforced', 'rebinding_changed_capability',
           'recertify_changed_capability', 'same_second_rebinding', 'form_public', 'form_locked', 'form_unlocked', 'form_unprotected', 'form_copy',
           'no_identity_key', 'user_selected_identity', 'two_capable_subkeys', 'decrypt_by_subkey', 'encrypt_on_private_refused',
           'decrypt_stored_message', 'decrypt_stored_after_capability_lost')
@@ -68,7 +68,7 @@ def generate(rng, tier):
                           'form': rng.choice(['unprotected', 'unprotected', 'unlocked', 'locked', 'public', 'copy']),
                           'user': rng.randrange(len(uids)) if rng.random() < 0.35 else None,
                           'enforce': rng.random() < 0.75, 'stored': rng.randrange(8) if rng.random() < 0.6 else None,
-                          'mixed_protection': rng.random() < 0.4})
+                          'mixed_protection': rng.random() < 0.4, 'co': rng.random() < 0.3})
     return {'config': {'primary': palg, 'uids': uids, 'subs': subs, 'no_identity': rng.random() < 0.06,
                        'start_us': 1_600_000_000_000_000}, 'steps': steps}
 
@@ -390,8 +390,19 @@ def _operate(pgpy, ctx, m, cfg, key, obj, form, passphrase, step, shapes):
             pub._require_usage_flags = bool(step.get('enforce', True))
             raised = None
             enc = None
+            co_ids = set()
             try:
-                enc = pub.encrypt(msg, cipher=C.SymmetricKeyAlgorithm.AES128, **kw)
+                if step.get('co'):
+                    # the message goes to a second party as well, whose encryption component is of the same algorithm and whose
+                    # session-key packet comes first: every recipient opens it through the packet that names its own component
+                    co = _co_recipient(pgpy, bool(allowed) and comps[allowed[0]].alg == rkeys.RSA_ES, m)
+                    co_ids = {bytes.fromhex(str(x.fingerprint))[-8:] for x in [co] + list(co.subkeys.values())}
+                    sk = C.SymmetricKeyAlgorithm.AES128.gen_key()
+                    first = co.pubkey.encrypt(msg, cipher=C.SymmetricKeyAlgorithm.AES128, sessionkey=sk)
+                    enc = pub.encrypt(first, cipher=C.SymmetricKeyAlgorithm.AES128, sessionkey=sk, **kw)
+                    ctx.probe('second_recipient_same_algorithm_first')
+                else:
+                    enc = pub.encrypt(msg, cipher=C.SymmetricKeyAlgorithm.AES128, **kw)
             except Exception as e:
                 raised = e
             ctx.checked()
@@ -413,6 +424,8 @@ def _operate(pgpy, ctx, m, cfg, key, obj, form, passphrase, step, shapes):
             for p in split_packets(bytes(enc)):
                 if p.tag == 1:
                     pk = renc.parse_pkesk(p.body)
+                    if pk.keyid in co_ids:
+                        continue
                     used = by_keyid.get(pk.keyid)
                     if used is None:
                         ctx.viol('C16:recipient-id-unknown', 'the session-key packet names a key id that is no component of the key')
@@ -449,6 +462,22 @@ def _operate(pgpy, ctx, m, cfg, key, obj, form, passphrase, step, shapes):
                     ctx.probe('decrypt_by_subkey')
     finally:
         obj._require_usage_flags = True
+
+
+def _co_recipient(pgpy, rsa, m):
+    C = pgpy.constants
+    _CO = m.__dict__.setdefault('co_recipients', {})
+    if rsa not in _CO:
+        if rsa:
+            k = world.new_key('rsa2048', 'c16.co.rsa')
+            k.add_uid(pgpy.PGPUID.new('Co Recipient'), usage={C.KeyFlags.Certify, C.KeyFlags.Sign, C.KeyFlags.EncryptCommunications},
+                      hashes=[C.HashAlgorithm.SHA256])
+        else:
+            k = world.new_key('ed25519', 'c16.co.primary')
+            k.add_uid(pgpy.PGPUID.new('Co Recipient'), usage={C.KeyFlags.Certify, C.KeyFlags.Sign}, hashes=[C.HashAlgorithm.SHA256])
+            k.add_subkey(world.new_key('cv25519', 'c16.co.sub'), usage={C.KeyFlags.EncryptCommunications})
+        _CO[rsa] = k
+    return _CO[rsa]
 
 
 class _null(object):
